@@ -162,6 +162,30 @@ fn load_units(path: &str, units: &mut Vec<Unit>, seen: &mut Vec<String>) {
         let pp = dir.join(&parent).join("unit.toml");
         load_units(pp.to_str().unwrap(), units, seen);
     }
+    let mut unit = unit;
+    // R26: read the declared discriminants of the indexing enum from the repository file
+    if let Some(tbl) = unit.opts.get("enum_index").and_then(|v| v.as_table()).cloned() {
+        let repo = std::env::args().nth(1).unwrap();
+        let file = tbl.get("file").and_then(|v| v.as_str()).unwrap_or("").to_string();
+        let ety = tbl.get("type").and_then(|v| v.as_str()).unwrap_or("").to_string();
+        let text = std::fs::read_to_string(format!("{repo}/{file}")).unwrap_or_else(|e| fail(&format!("lost anchor: {file}: {e}")));
+        let parsed = syn::parse_file(&text).unwrap_or_else(|e| fail(&format!("cannot parse {file}: {e}")));
+        let mut variants = toml::map::Map::new();
+        for it in &parsed.items {
+            if let Item::Enum(en) = it {
+                if en.ident == ety {
+                    for v in &en.variants {
+                        if let Some((_, Expr::Lit(ExprLit { lit: Lit::Int(i), .. }))) = &v.discriminant {
+                            variants.insert(v.ident.to_string(), toml::Value::Integer(i.base10_parse::<i64>().unwrap()));
+                        }
+                    }
+                }
+            }
+        }
+        let mut t2 = tbl.clone();
+        t2.insert("variants".into(), toml::Value::Table(variants));
+        unit.opts.insert("enum_index".into(), toml::Value::Table(t2));
+    }
     units.push(unit);
 }
 
